@@ -347,3 +347,85 @@ func ZZ_C10_roundtrip() {
 	nondet.Reach("C10.roundtrip.with-setting", in.setting == "agent" && in.annotation == "")
 	nondet.Reach("C10.roundtrip.with-annotation", in.annotation == "r1" && in.setting == "")
 }
+
+// ZZ_C10_overridesPerContainer: "container resources resolved as node-annotation override ..." per
+// container: a template with two containers (in either order), the node carrying a well-formed
+// override for neither, one or both of them, the two overrides of different shapes (requests only,
+// limits only, both, other resource names).  Each container of the created pod has exactly the
+// resources of its own override — nothing leaks from the other container's — and the template's
+// where it has none; the pod is recognised as up to date afterwards.
+func ZZ_C10_overridesPerContainer() {
+	type shape struct {
+		json string
+		want corev1.ResourceRequirements
+	}
+	q := resource.MustParse
+	shapes := map[string]shape{
+		"requests-cpu":      {`{"requests":{"cpu":"200m"}}`, corev1.ResourceRequirements{Requests: corev1.ResourceList{corev1.ResourceCPU: q("200m")}}},
+		"limits-cpu":        {`{"limits":{"cpu":"1"}}`, corev1.ResourceRequirements{Limits: corev1.ResourceList{corev1.ResourceCPU: q("1")}}},
+		"requests-memory":   {`{"requests":{"memory":"64Mi"}}`, corev1.ResourceRequirements{Requests: corev1.ResourceList{corev1.ResourceMemory: q("64Mi")}}},
+		"limits-and-memory": {`{"limits":{"memory":"128Mi"},"requests":{"cpu":"300m"}}`, corev1.ResourceRequirements{Limits: corev1.ResourceList{corev1.ResourceMemory: q("128Mi")}, Requests: corev1.ResourceList{corev1.ResourceCPU: q("300m")}}},
+	}
+	pick := func(label string) string {
+		switch nondet.String(label, "none", "requests-cpu", "limits-cpu", "requests-memory", "limits-and-memory") {
+		case "requests-cpu":
+			return "requests-cpu"
+		case "limits-cpu":
+			return "limits-cpu"
+		case "requests-memory":
+			return "requests-memory"
+		case "limits-and-memory":
+			return "limits-and-memory"
+		}
+		return "none"
+	}
+	rs := zzReplicaSet()
+	agent := corev1.Container{Name: "agent", Image: "agent:1", Resources: zzRes("100m")}
+	sidecar := corev1.Container{Name: "sidecar", Image: "sidecar:1"}
+	rs.Spec.Template = corev1.PodTemplateSpec{ObjectMeta: metav1.ObjectMeta{Labels: map[string]string{"app": "agent"}}}
+	if nondet.Bool("sidecarFirst") {
+		rs.Spec.Template.Spec.Containers = []corev1.Container{sidecar, agent}
+	} else {
+		rs.Spec.Template.Spec.Containers = []corev1.Container{agent, sidecar}
+	}
+	node := &corev1.Node{ObjectMeta: metav1.ObjectMeta{Name: "node0", Annotations: map[string]string{}}}
+	choice := map[string]string{"agent": pick("agent.override"), "sidecar": pick("sidecar.override")}
+	for name, c := range choice {
+		if c != "none" {
+			node.Annotations[zzAnnPrefix+name] = shapes[c].json
+		}
+	}
+	affinity := nondet.Bool("addNodeAffinity")
+	pod, err := podutils.CreatePodFromDaemonSetReplicaSet(fakeapi.NewScheme(), rs, node, nil, affinity)
+	nondet.Assert("C10.per-container.noerror", err == nil && pod != nil && len(pod.Spec.Containers) == 2)
+	if err != nil || pod == nil || len(pod.Spec.Containers) != 2 {
+		return
+	}
+	same := func(a, b corev1.ResourceList) bool {
+		if len(a) != len(b) {
+			return false
+		}
+		for k, v := range a {
+			w, ok := b[k]
+			if !ok || v.Cmp(w) != 0 {
+				return false
+			}
+		}
+		return true
+	}
+	for i := range pod.Spec.Containers {
+		c := &pod.Spec.Containers[i]
+		want := corev1.ResourceRequirements{}
+		if c.Name == "agent" {
+			want = zzRes("100m")
+		}
+		if ch := choice[c.Name]; ch != "none" {
+			want = shapes[ch].want
+		}
+		nondet.Assert("C10.per-container.own-override-only", same(c.Resources.Requests, want.Requests) && same(c.Resources.Limits, want.Limits))
+	}
+	ds := zzDaemonset(map[string]string{})
+	params := &Parameters{EDSName: zzEDSName, Strategy: &ds.Spec.Strategy, Replicaset: rs}
+	nondet.Assert("C10.per-container.stable", compareCurrentPodWithNewPod(params, pod, NewNodeItem(node, nil)))
+	nondet.Reach("C10.per-container.both-overridden", choice["agent"] == "limits-cpu" && choice["sidecar"] == "requests-memory")
+}
